@@ -336,6 +336,19 @@ impl CaseExec for Exec {
                 let res = self.res(&op.s("res"));
                 let dir = if op.get("dir") == Some("in") { TrafficType::Inbound } else { TrafficType::Outbound };
                 let mut b = EntryBuilder::new(res).with_traffic_type(dir).with_batch_count(op.u_or("batch", 1) as u32);
+                if let Some(t) = op.get("rtype") {
+                    // the resource classification must not influence any verdict or statistic
+                    use sentinel_core::base::ResourceType as RT;
+                    b = b.with_resource_type(match t {
+                        "web" => RT::Web,
+                        "rpc" => RT::RPC,
+                        "api" => RT::APIGateway,
+                        "db" => RT::DBSQL,
+                        "cache" => RT::Cache,
+                        "mq" => RT::MQ,
+                        _ => RT::Common,
+                    });
+                }
                 if op.get("args").is_some() {
                     b = b.with_args(Some(op.list("args")));
                 }
